@@ -116,6 +116,8 @@ def check_tone(bw):
     x = x_full[rise:-rise] if rise else x_full
     # modulate pads with zeros, so build the periodic tone directly through the transfer function instead
     y = np.asarray(ch.apply_modulation(x_full, bw).as_array(detach=True), dtype=float)
+    if len(y) != len(x_full):
+        return [("C14:apply-modulation-length", f"bw {bw}: {len(y)} output samples for {len(x_full)} input samples")]
     amp = 2 * abs(np.sum(y * np.exp(-2j * np.pi * f * t))) / len(y)  # amplitude of the tone component
     if abs(amp - 0.5) > 1e-3:
         return [("C14:tone-at-bandwidth", f"bw {bw}: amplitude {amp} instead of 0.5 ({len(x_full)} samples)")]
@@ -216,7 +218,14 @@ def check_fall(bw, dur, a, name, role):
         pulse = Pulse(wf, ConstantWaveform(D, 0.0), 0.0)
     else:
         pulse = Pulse(ConstantWaveform(D, 1.0), wf, 0.0)
-    fall = pulse.fall_time(ch)
+    try:  # the library's own calls on a valid pulse / waveform must not raise
+        fall = pulse.fall_time(ch)
+        wf.modulated_samples(ch)
+        wf.modulation_buffers(ch)
+        if len(ch.modulate(x)) != D + 2 * ch.rise_time:
+            return [(f"C14:output-length:{role}", f"bw {bw}, duration {D}: modulate returned {len(ch.modulate(x))} samples, expected {D} + 2 x {ch.rise_time}")]
+    except Exception as e:
+        return [(f"C14:modulation-of-a-valid-waveform-raises:{role}:{type(e).__name__}", f"bw {bw}, duration {D}, {name}: {e}"[:250])]
     rise = ch.rise_time
     pad = 6 * rise + 50
     y = ref_output(x, bw, pad)  # y[i] is the output at time i - pad
@@ -274,6 +283,8 @@ def worker(case):
 def mod_sampling(ctx):
     if ctx.exc is not None or not ctx.post.flags["building"]:
         return []
+    if ctx.post.flags.get("fall_time_errors"):
+        return [("C14:fall-time-of-a-scheduled-pulse-raises", ctx.post.flags["fall_time_errors"][0])]
     from pulser.sampler import sample
 
     seq = ctx.seq
